@@ -258,6 +258,7 @@ class PE:
         self.memo_joins = False
         self.deadline = None
         self.abort = None
+        self._primary = {}
 
     # ---- hooks ---------------------------------------------------------------------------------
     def init_mem(self, state, base, path, type_):
@@ -341,7 +342,10 @@ class PE:
                 path.append(("i", rv))
                 t = ae[1]
             elif t and t.startswith("%") and isinstance(rv, int):
-                path.append(rv)
+                # the same object may be viewed through several struct types (a node and its typed extension): fields of the
+                # type first used for the object are plain indices, fields seen through another type carry that type
+                prim = self._primary.setdefault(base[1], t) if not base[2] or base[2] == (("i", 0),) else t
+                path.append(rv if (prim == t or len(path) > 1) else ("f", t, rv))
                 fields = self.prog_structs(t)
                 t = fields[rv] if fields and rv < len(fields) else None
             elif t and t.startswith("{") and isinstance(rv, int):
@@ -389,6 +393,8 @@ class PE:
                         return None
                     v = next(iter(vs))
                 path.append(("i", v))
+            elif isinstance(p, tuple) and p[0] == "f":
+                path.append(p)
             elif isinstance(p, tuple):
                 return None
             else:
@@ -401,7 +407,7 @@ class PE:
             norm.append(p)
         path = norm
         # trailing zero steps denote the same address as the shorter path (first element / first member)
-        while path and (path[-1] == 0 or path[-1] == ("i", 0)):
+        while path and (path[-1] == 0 or path[-1] == ("i", 0) or (isinstance(path[-1], tuple) and path[-1][0] == "f" and path[-1][2] == 0)):
             path.pop()
         return (addr[1], tuple(path))
 
